@@ -85,6 +85,14 @@ def cases(tier: str):
                 for debug_on in (False, True):
                     for mc in (1, 2):
                         yield dict(n=n, es=es, debug=dbg, debug_on=debug_on, res="t" * n, mc=mc, is_async=False, ties=0)
+    # E0. an executor constructed BEFORE dag.setup() ran, executed afterwards: the setup nodes must not run again
+    for n in (2, 3):
+        for es in shapes(n):
+            for st in up_closed_sets(n, es):
+                if len(st) == n:
+                    continue
+                for is_async in (False, True):
+                    yield dict(n=n, es=es, setup=st, deferred_setup=True, res=("tm" * n)[:n], mc=2, is_async=is_async, ties=0)
     # E. setup nodes already executed by earlier calls on the same instance
     for n in (2, 3):
         for es in shapes(n):
